@@ -671,6 +671,13 @@ def mon_journal(steps, meta):
                     bad = [x for x in wrong - stamps if x != "" and l.startswith(x + "\t") and not any(g != "" for g in good)]
                     if not good or (bad and "" in stamps and all(g == "" for g in good)):
                         return "journal line %r is not stamped by the timestamp pattern in force (expected one of %s)" % (l, sorted(stamps))
+                if meta.get("labels_all", True) and ("del" in f[:-1] or "forb" in f[:-1]) and st.tag_same_env:
+                    # "labelled stored, deleted or forbidden according to what actually happened"
+                    src = cur.get("/w/" + f[-1])
+                    if "del" in f[:-1] and src is not None and src[0] == "file" and src[4] == "r":
+                        return "journal says %r was deleted, but it is there and readable (%s bytes)" % (f[-1], src[2])
+                    if "forb" in f[:-1] and src is not None and src[0] == "file" and src[4] == "r":
+                        return "journal says access to %r was forbidden, but it is a readable regular file" % f[-1]
                 if len(f) >= 2 and not any(x in LABELS for x in f[:-1]) and meta.get("labels_all", True):
                     return "journal line without a configured label: %r" % l
             if not any(o.result in ("error", "crashed", None) for o in ops_between):
@@ -1180,6 +1187,23 @@ def mon_exec_completed(steps, meta):
     return None
 
 
+def mon_post_restart_ok(steps, meta):
+    """C03: after the crash the daemon starts again and goes on: the passes of the new process do not end in an error
+    (whatever the crash left half-written, an empty position file included, is something the next start copes with)"""
+    i, st = _disturbed(steps)
+    if st is None:
+        return None
+    started = False
+    for x in steps[i + 1:]:
+        if x.op == "start":
+            started = x.result == "ok"
+        elif started and x.op in HANDLER_OPS and x.result == "error":
+            msgs = [unhexs(t.split(":", 1)[1]) for t in (x.trace or "").split()[1:]]
+            return ("after the crash (before call %s of '%s', %s) and the restart, '%s' stops the daemon again: %s"
+                    % (meta.get("k"), st.line.split()[0], meta.get("callline", ""), x.line.split()[0], " <- ".join(msgs)[:200]))
+    return None
+
+
 def mon_resources(steps, meta):
     """C20: with a handler loaded exactly two descriptors are open (queue directory, journal) after every
     operation, none after release"""
@@ -1201,7 +1225,7 @@ MONITORS.update({
     "queue_form": mon_queue_form, "journal": mon_journal, "faithful": mon_faithful, "history": mon_history,
     "bursts": mon_bursts, "projects": mon_projects, "recovery": mon_recovery, "no_partial": mon_no_partial,
     "fault_reported": mon_fault_reported, "resources": mon_resources, "expected_handled": mon_expected_handled,
-    "completed_exact": mon_completed_exact, "exec_completed": mon_exec_completed, "partial_snapshot": mon_partial_snapshot, "snapshot_members": mon_snapshot_members,
+    "completed_exact": mon_completed_exact, "exec_completed": mon_exec_completed, "post_restart_ok": mon_post_restart_ok, "partial_snapshot": mon_partial_snapshot, "snapshot_members": mon_snapshot_members,
 })
 
 
@@ -1226,7 +1250,7 @@ def standard_main(rep, cases=None, monitors=(), crash_monitors=None, fault_monit
             validated += v
             total += t
         if cases:
-            f, v = run_cases(rep, exe_impl, exe_model, cases, list(monitors))
+            f, v = run_cases_known(rep, exe_impl, exe_model, cases, list(monitors), known)
             found = found or f
             validated += v
             total += len(cases)
